@@ -55,8 +55,18 @@ structure Client where
   safeSearch : Nat
   /-- stands for the value of `Tags` -/
   tags : Nat
-  /-- identifies the struct value (which operation brought it in) -/
+  /-- identifies the struct value (which operation brought it in); carried in
+  `UpstreamsCacheSize` -/
   ver : Nat
+  ignoreQueryLog : Bool := false
+  ignoreStatistics : Bool := false
+  /-- stands for the value of `Upstreams` -/
+  upstreams : Nat := 0
+  upstreamsCacheEnabled : Bool := false
+  /-- stands for the schedule of `BlockedServices` -/
+  sched : Nat := 0
+  /-- stands for the per-engine switches of `SafeSearchConf` -/
+  ssConf : Nat := 0
   deriving DecidableEq, Repr
 
 def Client.idsLen (c : Client) : Nat :=
@@ -284,6 +294,8 @@ inductive Err where
   | emptyName | noIDs | noUID | invalidConf
   | uidClash | nameClash | cidClash | ipClash | subnetClash | macClash
   | notFound
+  /-- the configuration written by `forConfig` is refused at start-up -/
+  | restartFailed
   deriving DecidableEq, Repr
 
 inductive Res where
@@ -425,6 +437,87 @@ def run (s : Storage) : List Op → Storage
   | [] => s
   | op :: rest => run (step s op).1 rest
 
+/-! ### persistence: configuration file and restart (internal/home/clients.go)
+
+`forConfig` turns every stored client into a `clientObject` (the YAML record),
+`toPersistent` turns a record back into a client, `clientsContainer.Init` feeds
+them to `NewStorage`, which adds them one by one.  The YAML encoding itself and
+the String/Parse round trips of netip and net are outside: an address or CIDR
+string parses back to the value it was printed from; a MAC is printed with
+colons, so `net.ParseMAC` gives it back — but an 8-byte one printed that way is
+ALSO a valid IPv6 address text, and `SetIDs` asks the address parser first. -/
+
+/-- `clientObject` -/
+structure ClientObject where
+  name : Bytes
+  ids : List IDString
+  tags : Nat
+  upstreams : Nat
+  uid : UID
+  upstreamsCacheSize : Nat
+  upstreamsCacheEnabled : Bool
+  useGlobalSettings : Bool
+  filteringEnabled : Bool
+  parentalEnabled : Bool
+  safeBrowsingEnabled : Bool
+  useGlobalBlockedServices : Bool
+  ignoreQueryLog : Bool
+  ignoreStatistics : Bool
+  safeSearchEnabled : Bool
+  ssConf : Nat
+  svc : Nat
+  sched : Nat
+  /-- the oracle bit of `validate` travels with the tags/upstreams it stands for -/
+  invalidConf : Bool
+
+/-- The IPv6 address whose text is the colon spelling of an 8-byte MAC
+(`00:11:22:33:44:55:66:77` = `0:11:22:33:44:55:66:77`). -/
+def macAsIP (m : MAC) : Option IP :=
+  if m.length = 8 then some (.v6 (m.foldl (fun acc b => acc * 65536 + b) 0) []) else none
+
+/-- `Persistent.IDs()`: addresses, CIDRs, MACs, ClientIDs, each with what the
+parsers make of the text.  `fix = false` is the tree as it is: a MAC is printed
+with `HardwareAddr.String` (colons).  `fix = true` is the prepared repair
+(fixes/c04/eui64_ids.patch, `macString`): a MAC whose colon form is also
+address text is printed with hyphens, which only `net.ParseMAC` reads. -/
+def Client.idStrings (fix : Bool) (c : Client) : List IDString :=
+  c.ips.map (fun ip => ⟨[105], some ip, none, none⟩) ++
+  c.subnets.map (fun p => ⟨[115], none, some p, none⟩) ++
+  c.macs.map (fun m => ⟨[109], if fix then none else macAsIP m, none, some m⟩) ++
+  c.cids.map (fun id => ⟨id, none, none, none⟩)
+
+/-- One element of `forConfig` -/
+def Client.forConfig (fix : Bool) (c : Client) : ClientObject :=
+  { name := c.name, ids := c.idStrings fix, tags := c.tags, upstreams := c.upstreams, uid := c.uid
+    upstreamsCacheSize := c.ver, upstreamsCacheEnabled := c.upstreamsCacheEnabled
+    useGlobalSettings := !c.useOwnSettings
+    filteringEnabled := c.filteringEnabled, parentalEnabled := c.parentalEnabled
+    safeBrowsingEnabled := c.safeBrowsingEnabled
+    useGlobalBlockedServices := !c.useOwnBlockedServices
+    ignoreQueryLog := c.ignoreQueryLog, ignoreStatistics := c.ignoreStatistics
+    safeSearchEnabled := c.safeSearchEnabled, ssConf := c.ssConf, svc := c.svc, sched := c.sched
+    invalidConf := c.invalidConf }
+
+/-- `clientObject.toPersistent`.  A safe-search engine is created exactly when
+the record's safe-search config is enabled (identity `1`).  A record without
+UID would get a random one: outside the model (`none`). -/
+def ClientObject.toPersistent (o : ClientObject) : Option (Except SetErr Client) :=
+  if o.uid = 0 then none
+  else
+    let base : Client :=
+      { uid := o.uid, name := o.name, ips := [], subnets := [], macs := [], cids := []
+        invalidConf := o.invalidConf
+        useOwnSettings := !o.useGlobalSettings
+        filteringEnabled := o.filteringEnabled, safeSearchEnabled := o.safeSearchEnabled
+        safeBrowsingEnabled := o.safeBrowsingEnabled, parentalEnabled := o.parentalEnabled
+        useOwnBlockedServices := !o.useGlobalBlockedServices
+        svc := o.svc, safeSearch := if o.safeSearchEnabled then 1 else 0, tags := o.tags
+        ver := o.upstreamsCacheSize
+        ignoreQueryLog := o.ignoreQueryLog, ignoreStatistics := o.ignoreStatistics
+        upstreams := o.upstreams, upstreamsCacheEnabled := o.upstreamsCacheEnabled
+        sched := o.sched, ssConf := o.ssConf }
+    some (setIDs base o.ids)
+
 /-! ### lookups -/
 
 /-- Outcome of a Storage-level lookup. -/
@@ -542,5 +635,32 @@ def insertByName (c : Client) : List Client → List Client
   | d :: rest => if compare c.name d.name == .lt then c :: d :: rest else d :: insertByName c rest
 
 def Index.rangeByName (ci : Index) : List Client := ci.clients.foldr insertByName []
+
+/-- One iteration of the loop of `clientsContainer.Init`: a record that
+`toPersistent` refuses aborts the start. -/
+def ClientObject.load (o : ClientObject) : Option Client :=
+  match o.toPersistent with
+  | some (.ok c) => some c
+  | _ => none
+
+/-- `NewStorage`: the initial clients are added one by one; the first error aborts. -/
+def addAll (s : Storage) : List Client → Option Storage
+  | [] => some s
+  | c :: rest => match s.add c with
+    | (s', .ok) => addAll s' rest
+    | _ => none
+
+/-- Write the configuration file, stop, start again: `forConfig`, then
+`toPersistent` and `NewStorage` (`clientsContainer.Init`).  The DHCP server is
+a different component and keeps its leases.  When a record is refused the
+program does not come up (`err restartFailed`, old state shown). -/
+def Storage.restart (fix : Bool) (s : Storage) : Storage × Res :=
+  let objs := s.index.rangeByName.map (Client.forConfig fix)
+  match objs.mapM ClientObject.load with
+  | none => (s, .err .restartFailed)
+  | some cs =>
+    match addAll ⟨Index.empty, s.dhcp⟩ cs with
+    | some s' => (s', .ok)
+    | none => (s, .err .restartFailed)
 
 end AGH.C04
